@@ -515,7 +515,7 @@ func genInnerCase(r *h.Rng, st h.Stats) string {
 
 func genInner(rng *h.Rng, tier string, emit func(string)) {
 	st := h.Stats{}
-	n := 2200
+	n := 1800
 	if tier == "thorough" {
 		n *= 10
 	}
